@@ -1,6 +1,9 @@
 // h_buffer.cpp - C08: Buffer against a byte-queue reference model (+ownership flag, unspecified-byte mask), terminator read behind
 // the data whenever the buffer owns its storage, guarded foreign blocks for attach().
 // modes: hist (swarm random histories over 3 buffers and 4 foreign blocks), backlog (Server send-backlog usage pattern, 1 B .. 1 MiB chunks)
+// Build flavours: private fields are read in repOf() (generator: sizes around the head-room / capacity boundaries; evidence: state and branch classes) and in the structural
+// check of a buffer without allocation. With -DVERIF_NO_PRIVATE the picture is built from capacity(), size(), the place of the exposed view (foreign block / Buffer object /
+// elsewhere) and the harness's own head-room estimate; size, content, terminator, foreign-guard, == / != oracles are the same in both flavours.
 #include "vh.hpp"
 #include <nstd/Buffer.hpp>
 
@@ -33,8 +36,10 @@ struct BM {                // model of one Buffer
   size_t aoff, alen;       // attached range inside the payload of that block
   size_t woff;             // payload offset of the first exposed byte while the view is known to alias the block
   bool alias;              // view known to alias foreign memory at woff (cleared as soon as the buffer may have let go of it)
-  BM() : own(false), att(-1), aoff(0), alen(0), woff(0), alias(false) {}
-  void swap(BM& o) { v.swap(o.v); bool b = own; own = o.own; o.own = b; int a = att; att = o.att; o.att = a; size_t s = aoff; aoff = o.aoff; o.aoff = s; s = alen; alen = o.alen; o.alen = s; s = woff; woff = o.woff; o.woff = s; b = alias; alias = o.alias; o.alias = b; }
+  size_t head;             // the harness's own estimate of the free room in front of the data (bytes taken off the front since the data was last placed at the start of
+                           // the storage, minus what prepend put back): selects sizes around the prepend/resize branch boundaries when private fields cannot be read
+  BM() : own(false), att(-1), aoff(0), alen(0), woff(0), alias(false), head(0) {}
+  void swap(BM& o) { v.swap(o.v); size_t h = head; head = o.head; o.head = h; bool b = own; own = o.own; o.own = b; int a = att; att = o.att; o.att = a; size_t s = aoff; aoff = o.aoff; o.aoff = s; s = alen; alen = o.alen; o.alen = s; s = woff; woff = o.woff; o.woff = s; b = alias; alias = o.alias; o.alias = b; }
   void detach() { att = -1; alias = false; }
 };
 
@@ -45,12 +50,57 @@ static Buffer* B[NB]; static BM* M[NB]; static Foreign F[NF];
 static char g_key[256];
 static const char* key(const char* what) { snprintf(g_key, sizeof g_key, "%s/%s", (const char*)ctx, what); return g_key; }
 
-static const char* stateClass(const Buffer& b) {
-  if (b.buffer) return "owning";
-  if (b.bufferStart == (const byte*)&b._capacity) return "empty-non-owning";
-  for (int f = 0; f < NF; ++f) if (F[f].base && b.bufferStart >= F[f].base && b.bufferStart <= F[f].base + F[f].total) return "attached";
-  return "pointing-at-another-buffers-sentinel";   // only reachable through a defective swap()
+// ------------------------------------------------------------------------------------------------ representation of buffer i as far as the generator and the evidence need it
+// normal flavour: read from the private fields. VERIF_NO_PRIVATE flavour: only what the public API shows - capacity(), size() and WHERE the exposed view lies (inside a foreign
+// block the harness allocated, inside a Buffer object, or elsewhere = storage of its own) - plus the harness's own head-room estimate (BM::head). No verdict depends on the estimate.
+static long g_estAgree = 0, g_estDiffer = 0;
+static int foreignOf(const byte* p) { for (int f = 0; f < NF; ++f) if (F[f].base && p >= F[f].base && p <= F[f].base + F[f].total) return f; return -1; }
+static int bufferObjectOf(const byte* p) { for (int j = 0; j < NB; ++j) if (B[j] && p >= (const byte*)B[j] && p < (const byte*)(B[j] + 1)) return j; return -1; }
+// the exposed view is storage of the buffer's own (neither foreign memory nor the inside of a Buffer object)
+static bool viewIsOwnStorage(int i) { const byte* p = (const byte*)*(const Buffer*)B[i]; return foreignOf(p) < 0 && bufferObjectOf(p) < 0; }
+struct Rep { bool alloc; const char* cls; long head, cap, size; };
+static Rep publicRep(int i) {   // the picture without private state
+  const Buffer& b = *B[i]; Rep r; r.size = (long)b.size(); r.cap = (long)b.capacity();
+  const byte* p = (const byte*)b;
+  r.alloc = viewIsOwnStorage(i); r.head = r.alloc ? (long)M[i]->head : 0;
+  r.cls = r.alloc ? "owning" : foreignOf(p) >= 0 ? "attached" : "empty-non-owning";
+  return r;
 }
+static Rep repOf(int i) {
+#ifndef VERIF_NO_PRIVATE
+  const Buffer& b = *B[i]; Rep r; r.size = (long)b.size(); r.cap = (long)b.capacity();
+  r.alloc = b.buffer != 0; r.head = b.buffer ? (long)(b.bufferStart - b.buffer) : 0;
+  if (b.buffer) r.cls = "owning";
+  else if (b.bufferStart == (const byte*)&b._capacity) r.cls = "empty-non-owning";
+  else if (foreignOf(b.bufferStart) >= 0) r.cls = "attached";
+  else r.cls = "pointing-at-another-buffers-sentinel";   // only reachable through a defective swap()
+  return r;
+#else
+  return publicRep(i);
+#endif
+}
+// how good the fallback flavour's picture is (evidence only; normal flavour)
+static void compareReps(int i) {
+#ifndef VERIF_NO_PRIVATE
+  Rep a = repOf(i), b = publicRep(i);
+  if (a.alloc == b.alloc && a.head == b.head && !strcmp(a.cls, b.cls)) ++g_estAgree; else ++g_estDiffer;
+#else
+  (void)i;
+#endif
+}
+static const char* stateClass(int i) { return repOf(i).cls; }
+// the buffer holds storage of its own (the foreign range it was attached to is no longer its business; a terminator can be read behind the data)
+static bool holdsStorage(int i) {
+#ifndef VERIF_NO_PRIVATE
+  return B[i]->buffer != 0;
+#else
+  return viewIsOwnStorage(i);
+#endif
+}
+// head-room estimate: what the operation about to be called does to the room in front of the data, in terms of the public picture before the call
+static void estResize(int i, size_t newSize) { BM& m = *M[i]; Rep r = publicRep(i); if ((long)newSize > r.cap || !r.alloc || r.head + (long)newSize > r.cap) m.head = 0; }
+static void estPrepend(int i, size_t n) { BM& m = *M[i]; Rep r = publicRep(i); if (r.alloc && r.head >= (long)n) m.head = (size_t)(r.head - (long)n); else m.head = 0; }
+static void estRemoveFront(int i, size_t n) { BM& m = *M[i]; Rep r = publicRep(i); if (!r.alloc || (long)n >= r.size) m.head = 0; else m.head = (size_t)(r.head + (long)n); }
 
 // true when a listed finding whose key starts with `pre` (and contains `sub`, if given) was passed in --exclude
 static bool excludedPrefix(const char* pre, const char* sub = 0) {
@@ -61,7 +111,7 @@ static bool excludedPrefix(const char* pre, const char* sub = 0) {
   return false;
 }
 // ------------------------------------------------------------------------------------------------ observation
-static long g_bytesCompared = 0, g_termReads = 0, g_guardBytes = 0, g_structChecks = 0;
+static long g_bytesCompared = 0, g_termReads = 0, g_guardBytes = 0, g_structChecks = 0, g_viewPlaceChecks = 0;
 
 static void checkOne(int i, int target) {
   const Buffer& b = *B[i]; const BM& m = *M[i];
@@ -71,19 +121,28 @@ static void checkOne(int i, int target) {
   if (sz != m.v.n) { snprintf(kb, sizeof kb, "%ssize", other); fail(key(kb), "buffer %d: size() = %lu, reference queue holds %lu bytes", i, (unsigned long)sz, (unsigned long)m.v.n); }
   if (b.isEmpty() != (m.v.n == 0)) { snprintf(kb, sizeof kb, "%sisEmpty", other); fail(key(kb), "buffer %d: isEmpty() = %d with %lu bytes", i, (int)b.isEmpty(), (unsigned long)m.v.n); }
   const byte* p = (const byte*)b;
+#ifndef VERIF_NO_PRIVATE
   if (!b.buffer) {   // structural: without an allocation the window is the buffer's own empty sentinel or lies inside attached (foreign) memory
     bool ok = b.bufferStart == (const byte*)&b._capacity && b.bufferEnd == b.bufferStart;
     for (int f = 0; f < NF && !ok; ++f) if (F[f].base && b.bufferStart >= F[f].base && b.bufferStart <= b.bufferEnd && b.bufferEnd <= F[f].base + F[f].total) ok = true;
     ++g_structChecks;
     if (!ok) { snprintf(kb, sizeof kb, "%sstructure", other); fail(key(kb), "buffer %d holds no allocation, but its window is neither its own empty sentinel nor inside attached memory (it points %ld bytes from the buffer object)", i, (long)(b.bufferStart - (const byte*)&b)); }
   }
+#else
+  { // the part of the same check that the public view allows: the exposed window never lies inside ANOTHER Buffer object, and a window that starts in foreign memory ends in it
+    int o = bufferObjectOf(p), f = foreignOf(p); ++g_viewPlaceChecks;
+    if (o >= 0 && o != i) { snprintf(kb, sizeof kb, "%sstructure", other); fail(key(kb), "the view of buffer %d points into the Buffer object %d", i, o); }
+    if (o == i && sz != 0) { snprintf(kb, sizeof kb, "%sstructure", other); fail(key(kb), "the view of buffer %d points into the Buffer object itself but size() is %lu", i, (unsigned long)sz); }
+    if (f >= 0 && p + sz > F[f].base + F[f].total) { snprintf(kb, sizeof kb, "%sstructure", other); fail(key(kb), "the view of buffer %d starts in foreign block %d and ends %ld bytes behind it", i, f, (long)(p + sz - (F[f].base + F[f].total))); }
+  }
+#endif
   if (m.v.allKnown()) {
     if (sz && memcmp(p, m.v.d, sz)) { size_t at = 0; while (p[at] == m.v.d[at]) ++at; snprintf(kb, sizeof kb, "%scontent", other); fail(key(kb), "buffer %d: byte %lu of %lu is 0x%02x, reference queue has 0x%02x", i, (unsigned long)at, (unsigned long)sz, p[at], m.v.d[at]); }
     g_bytesCompared += (long)sz;
   } else {
     for (size_t at = 0; at < sz; ++at) if (m.v.k[at]) { ++g_bytesCompared; if (p[at] != m.v.d[at]) { snprintf(kb, sizeof kb, "%scontent", other); fail(key(kb), "buffer %d: byte %lu of %lu is 0x%02x, reference queue has 0x%02x", i, (unsigned long)at, (unsigned long)sz, p[at], m.v.d[at]); } }
   }
-  if (m.own && b.buffer) {       // owns its storage: one readable zero byte follows (ASan: readable; malloc fill 0xbe: really written)
+  if (m.own && holdsStorage(i)) {       // owns its storage: one readable zero byte follows (ASan: readable; malloc fill 0xbe: really written)
     byte t = p[sz]; ++g_termReads;
     if (t != 0) { snprintf(kb, sizeof kb, "%sterminator", other); fail(key(kb), "buffer %d (%lu bytes, owning): the byte after the data is 0x%02x, not 0", i, (unsigned long)sz, t); }
   }
@@ -112,7 +171,7 @@ static int modelEq(const Bytes& a, const Bytes& b) {
 static int g_target2 = -1;   // second receiver of the operation (swap)
 static void checkAll(int target, bool pairs) {
   for (int i = 0; i < NB; ++i) {
-    if (M[i]->att >= 0 && B[i]->buffer) M[i]->detach();   // it owns storage now: the foreign range is no longer its business
+    if (M[i]->att >= 0 && holdsStorage(i)) M[i]->detach();   // it owns storage now: the foreign range is no longer its business
     checkOne(i, i == g_target2 ? i : target);
   }
   g_target2 = -1;
@@ -137,8 +196,8 @@ static u8* genBytes(Rng& r, size_t n) {    // exactly sized heap block; bytes mo
 static size_t clip(long v, long max) { return (size_t)(v < 0 ? 0 : v > max ? max : v); }
 
 // sizes around the branch boundaries of buffer i
-static size_t pickLen(Rng& r, const Buffer& b, int big) {
-  long head = b.buffer ? (long)(b.bufferStart - b.buffer) : 0, cap = (long)b._capacity, sz = (long)b.size(), room = cap - sz, tail = b.buffer ? (long)(b.buffer + cap - b.bufferEnd) : 0;
+static size_t pickLen(Rng& r, int i, int big) {
+  Rep q = repOf(i); long head = q.head, cap = q.cap, sz = q.size, room = cap - sz, tail = q.alloc ? cap - head - sz : 0;
   switch (r.below(16)) {
   case 0: return 0;
   case 1: return 1;
@@ -155,8 +214,8 @@ static size_t pickLen(Rng& r, const Buffer& b, int big) {
   default: return (size_t)r.range(0, 40);
   }
 }
-static size_t pickNewSize(Rng& r, const Buffer& b) {
-  long head = b.buffer ? (long)(b.bufferStart - b.buffer) : 0, cap = (long)b._capacity, sz = (long)b.size();
+static size_t pickNewSize(Rng& r, int i) {
+  Rep q = repOf(i); long head = q.head, cap = q.cap, sz = q.size;
   switch (r.below(14)) {
   case 0: return 0;
   case 1: return clip(sz, 8192);
@@ -184,23 +243,32 @@ static size_t pickRemove(Rng& r, size_t sz) {
   }
 }
 
-static const char* prependBranch(const Buffer& b, size_t n) {
-  if (!b.buffer) return b.bufferStart == (const byte*)&b._capacity ? "empty-non-owning" : "attached";
-  if ((size_t)(b.bufferStart - b.buffer) >= n) return "head-room";
-  if (b._capacity >= n + b.size()) return "shift";
+// branch classes of prepend / resize: derived from the private fields before the call; in the VERIF_NO_PRIVATE flavour from the public picture and the head-room ESTIMATE (they
+// are then recorded as "branches_estimated": a class name there says which sizes the generator aimed at, not which branch the library was seen to take)
+static const char* prependBranch(int i, size_t n) {
+  Rep q = repOf(i);
+  if (!q.alloc) return !strcmp(q.cls, "empty-non-owning") ? "empty-non-owning" : "attached";
+  if (q.head >= (long)n) return "head-room";
+  if (q.cap >= (long)n + q.size) return "shift";
   return "reallocate";
 }
-static const char* resizeBranch(const Buffer& b, size_t size) {
-  if (!b.buffer) return b.bufferStart == (const byte*)&b._capacity ? (size ? "empty-non-owning/grow" : "empty-non-owning/zero") : (size > b.size() ? "attached/grow" : size == b.size() ? "attached/same" : "attached/shrink");
-  if (size > b._capacity) return "reallocate";
-  if (b.bufferStart + size <= b.buffer + b._capacity) return size > b.size() ? "in-place/grow" : size == b.size() ? "in-place/same" : "in-place/shrink";
+static const char* resizeBranch(int i, size_t size) {
+  Rep q = repOf(i); long sz = (long)size;
+  if (!q.alloc) return !strcmp(q.cls, "empty-non-owning") ? (size ? "empty-non-owning/grow" : "empty-non-owning/zero") : (sz > q.size ? "attached/grow" : sz == q.size ? "attached/same" : "attached/shrink");
+  if (sz > q.cap) return "reallocate";
+  if (q.head + sz <= q.cap) return sz > q.size ? "in-place/grow" : sz == q.size ? "in-place/same" : "in-place/shrink";
   return "compact-to-front";
 }
-static void noteBranch(const char* op, const char* br) { char t[96]; snprintf(t, sizeof t, "%s/%s", op, br); setItem("branches", t); }
-static void noteCell(const char* op, const Buffer& b) { char t[96]; snprintf(t, sizeof t, "%s/%s%s", op, stateClass(b), b.buffer && b.bufferStart != b.buffer ? "+front-offset" : ""); setItem("op_state_cells", t); }
+#ifndef VERIF_NO_PRIVATE
+static const char* const BRANCH_SET = "branches"; static const char* const CELL_SET = "op_state_cells";
+#else
+static const char* const BRANCH_SET = "branches_estimated"; static const char* const CELL_SET = "op_state_cells_estimated";
+#endif
+static void noteBranch(const char* op, const char* br) { char t[96]; snprintf(t, sizeof t, "%s/%s", op, br); setItem(BRANCH_SET, t); }
+static void noteCell(const char* op, int i) { Rep q = repOf(i); char t[96]; snprintf(t, sizeof t, "%s/%s%s", op, q.cls, q.alloc && q.head ? "+front-offset" : ""); setItem(CELL_SET, t); }
 
 // ------------------------------------------------------------------------------------------------ one history
-static void replaceBuffer(int i, Buffer* nb) { delete B[i]; B[i] = nb; M[i]->detach(); }
+static void replaceBuffer(int i, Buffer* nb) { delete B[i]; B[i] = nb; M[i]->detach(); M[i]->head = 0; }
 
 static void historyCase(long idx) {
   Rng r(opts.seed, 8001, (u64)idx);
@@ -228,33 +296,34 @@ static void historyCase(long idx) {
     Buffer& b = *B[i]; BM& m = *M[i];
     if ((kind == K_APPENDB || kind == K_PREPENDB) && b.size() + B[j]->size() > 20000) kind = K_RMFRONT;   // b0 += b1; b1 += b0; ... grows like Fibonacci numbers
     fp = mix(fp, (u64)kind * 7 + (u64)i);
+    compareReps(i);
     switch (kind) {
     case K_APPEND: {
-      size_t n = pickLen(r, b, big); u8* d = genBytes(r, n); const char* br = resizeBranch(b, b.size() + n);
-      setctxf("Buffer.append/%s", br); noteBranch("append", br); noteCell("append", b); hist.addf("b%d.append(%lu bytes) [%s size=%lu cap=%lu head=%ld]\n", i, (unsigned long)n, br, (unsigned long)b.size(), (unsigned long)b._capacity, b.buffer ? (long)(b.bufferStart - b.buffer) : -1L);
+      size_t n = pickLen(r, i, big); u8* d = genBytes(r, n); const char* br = resizeBranch(i, b.size() + n); estResize(i, b.size() + n);
+      setctxf("Buffer.append/%s", br); noteBranch("append", br); noteCell("append", i); hist.addf("b%d.append(%lu bytes) [%s size=%lu cap=%lu head=%ld]\n", i, (unsigned long)n, br, (unsigned long)b.size(), (unsigned long)b.capacity(), repOf(i).alloc ? repOf(i).head : -1L);
       b.append(d, n); m.v.append(d, 0, n); if (m.v.n > 0) m.own = true; free(d); cnt("op_append"); break; }
     case K_APPENDB: {
-      const Buffer& s = *B[j]; const char* br = resizeBranch(b, b.size() + s.size());
-      setctxf("Buffer.append(Buffer)/%s", br); noteBranch("append", br); noteCell("append(Buffer)", b); hist.addf("b%d.append(b%d: %lu bytes) [%s]\n", i, j, (unsigned long)s.size(), br);
+      const Buffer& s = *B[j]; const char* br = resizeBranch(i, b.size() + s.size()); estResize(i, b.size() + s.size());
+      setctxf("Buffer.append(Buffer)/%s", br); noteBranch("append", br); noteCell("append(Buffer)", i); hist.addf("b%d.append(b%d: %lu bytes) [%s]\n", i, j, (unsigned long)s.size(), br);
       b.append(s); m.v.append(M[j]->v.d, M[j]->v.k, M[j]->v.n); if (m.v.n > 0) m.own = true; cnt("op_append_buffer"); break; }
     case K_PREPEND: {
-      size_t n = pickLen(r, b, big); u8* d = genBytes(r, n); const char* br = prependBranch(b, n);
-      setctxf("Buffer.prepend/%s", br); noteBranch("prepend", br); noteCell("prepend", b); hist.addf("b%d.prepend(%lu bytes) [%s size=%lu cap=%lu head=%ld]\n", i, (unsigned long)n, br, (unsigned long)b.size(), (unsigned long)b._capacity, b.buffer ? (long)(b.bufferStart - b.buffer) : -1L);
+      size_t n = pickLen(r, i, big); u8* d = genBytes(r, n); const char* br = prependBranch(i, n); estPrepend(i, n);
+      setctxf("Buffer.prepend/%s", br); noteBranch("prepend", br); noteCell("prepend", i); hist.addf("b%d.prepend(%lu bytes) [%s size=%lu cap=%lu head=%ld]\n", i, (unsigned long)n, br, (unsigned long)b.size(), (unsigned long)b.capacity(), repOf(i).alloc ? repOf(i).head : -1L);
       b.prepend(d, n); m.v.prepend(d, 0, n); m.own = true; free(d); cnt("op_prepend"); break; }
     case K_PREPENDB: {
-      const Buffer& s = *B[j]; const char* br = prependBranch(b, s.size());
-      setctxf("Buffer.prepend(Buffer)/%s", br); noteBranch("prepend", br); noteCell("prepend(Buffer)", b); hist.addf("b%d.prepend(b%d: %lu bytes) [%s]\n", i, j, (unsigned long)s.size(), br);
+      const Buffer& s = *B[j]; const char* br = prependBranch(i, s.size()); estPrepend(i, s.size());
+      setctxf("Buffer.prepend(Buffer)/%s", br); noteBranch("prepend", br); noteCell("prepend(Buffer)", i); hist.addf("b%d.prepend(b%d: %lu bytes) [%s]\n", i, j, (unsigned long)s.size(), br);
       b.prepend(s); m.v.prepend(M[j]->v.d, M[j]->v.k, M[j]->v.n); m.own = true; cnt("op_prepend_buffer"); break; }
     case K_ASSIGN: {
-      size_t n = pickLen(r, b, big); u8* d = genBytes(r, n); const char* sc = stateClass(b); const char* fit = n > b._capacity ? "grow" : "fits";
-      setctxf("Buffer.assign/%s/%s", sc, fit); noteCell("assign", b); { char t[64]; snprintf(t, sizeof t, "%s/%s", sc, fit); noteBranch("assign", t); } hist.addf("b%d.assign(%lu bytes) [%s cap=%lu]\n", i, (unsigned long)n, sc, (unsigned long)b._capacity);
-      b.assign(d, n); m.v.set(d, n); if (n > 0) m.own = true; free(d); cnt("op_assign"); break; }
+      size_t n = pickLen(r, i, big); u8* d = genBytes(r, n); const char* sc = stateClass(i); const char* fit = n > b.capacity() ? "grow" : "fits";
+      setctxf("Buffer.assign/%s/%s", sc, fit); noteCell("assign", i); { char t[64]; snprintf(t, sizeof t, "%s/%s", sc, fit); noteBranch("assign", t); } hist.addf("b%d.assign(%lu bytes) [%s cap=%lu]\n", i, (unsigned long)n, sc, (unsigned long)b.capacity());
+      m.head = 0; b.assign(d, n); m.v.set(d, n); if (n > 0) m.own = true; free(d); cnt("op_assign"); break; }
     case K_ASSIGNB: {
-      const Buffer& s = *B[j]; const char* sc = stateClass(b); const char* fit = s.size() > b._capacity ? "grow" : "fits";
-      setctxf("Buffer.operator=/%s/%s", sc, fit); noteCell("operator=", b); { char t[64]; snprintf(t, sizeof t, "%s/%s", sc, fit); noteBranch("operator=", t); } hist.addf("b%d = b%d (%lu bytes) [%s cap=%lu]\n", i, j, (unsigned long)s.size(), sc, (unsigned long)b._capacity);
-      b = s; m.v.setFrom(M[j]->v); if (m.v.n > 0) m.own = true; cnt("op_assign_buffer"); break; }
+      const Buffer& s = *B[j]; const char* sc = stateClass(i); const char* fit = s.size() > b.capacity() ? "grow" : "fits";
+      setctxf("Buffer.operator=/%s/%s", sc, fit); noteCell("operator=", i); { char t[64]; snprintf(t, sizeof t, "%s/%s", sc, fit); noteBranch("operator=", t); } hist.addf("b%d = b%d (%lu bytes) [%s cap=%lu]\n", i, j, (unsigned long)s.size(), sc, (unsigned long)b.capacity());
+      m.head = 0; b = s; m.v.setFrom(M[j]->v); if (m.v.n > 0) m.own = true; cnt("op_assign_buffer"); break; }
     case K_COPY: {
-      setctxf("Buffer.copy-construct/from-%s", stateClass(*B[j])); noteCell("copy-construct-from", *B[j]); hist.addf("b%d := Buffer(b%d)\n", i, j);
+      setctxf("Buffer.copy-construct/from-%s", stateClass(j)); noteCell("copy-construct-from", j); hist.addf("b%d := Buffer(b%d)\n", i, j);
       Buffer* nb = new Buffer(*B[j]); replaceBuffer(i, nb); M[i]->v.setFrom(M[j]->v); M[i]->own = true; cnt("op_copy"); break; }
     case K_CTOR: {
       int which = (int)r.below(3);
@@ -263,37 +332,37 @@ static void historyCase(long idx) {
       else { size_t n = (size_t)r.range(0, 200); u8* d = genBytes(r, n); setctx("Buffer.Buffer(data,size)"); hist.addf("b%d := Buffer(data, %lu)\n", i, (unsigned long)n); replaceBuffer(i, new Buffer(d, n)); M[i]->v.set(d, n); M[i]->own = true; free(d); }
       cnt("op_construct"); break; }
     case K_RESIZE: {
-      size_t n = pickNewSize(r, b); const char* br = resizeBranch(b, n);
-      setctxf("Buffer.resize/%s", br); noteBranch("resize", br); noteCell("resize", b); hist.addf("b%d.resize(%lu) [%s size=%lu cap=%lu head=%ld]\n", i, (unsigned long)n, br, (unsigned long)b.size(), (unsigned long)b._capacity, b.buffer ? (long)(b.bufferStart - b.buffer) : -1L);
+      size_t n = pickNewSize(r, i); const char* br = resizeBranch(i, n); estResize(i, n);
+      setctxf("Buffer.resize/%s", br); noteBranch("resize", br); noteCell("resize", i); hist.addf("b%d.resize(%lu) [%s size=%lu cap=%lu head=%ld]\n", i, (unsigned long)n, br, (unsigned long)b.size(), (unsigned long)b.capacity(), repOf(i).alloc ? repOf(i).head : -1L);
       b.resize(n); m.v.resize(n); if (n > 0 && !m.own) m.own = true; cnt("op_resize"); break; }
     case K_RESERVE: {
-      size_t n = r.chance(1, 3) ? pickNewSize(r, b) : (size_t)r.range(0, 300); const char* sc = stateClass(b);
-      setctxf("Buffer.reserve/%s/%s", sc, n > b._capacity ? "grow" : "noop"); noteCell("reserve", b); { char t[64]; snprintf(t, sizeof t, "%s/%s", sc, n > b._capacity ? "grow" : "noop"); noteBranch("reserve", t); } hist.addf("b%d.reserve(%lu) [%s cap=%lu]\n", i, (unsigned long)n, sc, (unsigned long)b._capacity);
-      b.reserve(n); if (n > 0) m.own = true; cnt("op_reserve"); break; }
+      size_t n = r.chance(1, 3) ? pickNewSize(r, i) : (size_t)r.range(0, 300); const char* sc = stateClass(i);
+      setctxf("Buffer.reserve/%s/%s", sc, n > b.capacity() ? "grow" : "noop"); noteCell("reserve", i); { char t[64]; snprintf(t, sizeof t, "%s/%s", sc, n > b.capacity() ? "grow" : "noop"); noteBranch("reserve", t); } hist.addf("b%d.reserve(%lu) [%s cap=%lu]\n", i, (unsigned long)n, sc, (unsigned long)b.capacity());
+      if (n > b.capacity()) m.head = 0; b.reserve(n); if (n > 0) m.own = true; cnt("op_reserve"); break; }
     case K_RMFRONT: {
-      size_t n = pickRemove(r, b.size()); if (xRmFrontAll && b.buffer && n >= b.size()) { if (!b.size()) break; n = b.size() - 1; }   // trigger: removeFront of everything (also of nothing from an empty window) from an owning buffer
+      size_t n = pickRemove(r, b.size()); if (xRmFrontAll && repOf(i).alloc && n >= b.size()) { if (!b.size()) break; n = b.size() - 1; }   // trigger: removeFront of everything (also of nothing from an empty window) from an owning buffer
       const char* cls = n == 0 ? "zero" : n < b.size() ? "part" : n == b.size() ? "all" : "more";
-      setctxf("Buffer.removeFront/%s/%s", stateClass(b), cls); noteCell("removeFront", b); { char t[64]; snprintf(t, sizeof t, "%s/%s", stateClass(b), cls); noteBranch("removeFront", t); } hist.addf("b%d.removeFront(%lu) [%s size=%lu]\n", i, (unsigned long)n, stateClass(b), (unsigned long)b.size());
-      b.removeFront(n); if (n >= m.v.n) m.alias = false; else m.woff += n; m.v.removeFront(n); removed = true; cnt("op_remove_front"); break; }
+      setctxf("Buffer.removeFront/%s/%s", stateClass(i), cls); noteCell("removeFront", i); { char t[64]; snprintf(t, sizeof t, "%s/%s", stateClass(i), cls); noteBranch("removeFront", t); } hist.addf("b%d.removeFront(%lu) [%s size=%lu]\n", i, (unsigned long)n, stateClass(i), (unsigned long)b.size());
+      estRemoveFront(i, n); b.removeFront(n); if (n >= m.v.n) m.alias = false; else m.woff += n; m.v.removeFront(n); removed = true; cnt("op_remove_front"); break; }
     case K_RMBACK: {
       size_t n = pickRemove(r, b.size()); const char* cls = n == 0 ? "zero" : n < b.size() ? "part" : n == b.size() ? "all" : "more";
-      setctxf("Buffer.removeBack/%s/%s", stateClass(b), cls); noteCell("removeBack", b); { char t[64]; snprintf(t, sizeof t, "%s/%s", stateClass(b), cls); noteBranch("removeBack", t); } hist.addf("b%d.removeBack(%lu) [%s size=%lu]\n", i, (unsigned long)n, stateClass(b), (unsigned long)b.size());
-      b.removeBack(n); if (n >= m.v.n) m.alias = false; m.v.removeBack(n); removed = true; cnt("op_remove_back"); break; }
-    case K_CLEAR: setctxf("Buffer.clear/%s", stateClass(b)); noteCell("clear", b); hist.addf("b%d.clear() [%s]\n", i, stateClass(b)); b.clear(); m.v.n = 0; m.alias = false; cnt("op_clear"); break;
-    case K_FREE: setctxf("Buffer.free/%s", stateClass(b)); noteCell("free", b); hist.addf("b%d.free() [%s]\n", i, stateClass(b)); b.free(); m.v.n = 0; m.own = false; m.detach(); cnt("op_free"); break;
-    case K_SWAP: if (xSwapEmpty && (!strcmp(stateClass(b), "empty-non-owning") || !strcmp(stateClass(*B[j]), "empty-non-owning"))) break;   // trigger: swap with a buffer that has no storage
-      { bool se = !strcmp(stateClass(b), "empty-non-owning") || !strcmp(stateClass(*B[j]), "empty-non-owning"); setctxf("Buffer.swap/%s", se ? "with-empty-non-owning" : "both-hold-data"); } noteCell("swap", b); noteCell("swap-arg", *B[j]); g_target2 = j; hist.addf("b%d.swap(b%d)\n", i, j); b.swap(*B[j]); m.swap(*M[j]); cnt("op_swap"); break;
+      setctxf("Buffer.removeBack/%s/%s", stateClass(i), cls); noteCell("removeBack", i); { char t[64]; snprintf(t, sizeof t, "%s/%s", stateClass(i), cls); noteBranch("removeBack", t); } hist.addf("b%d.removeBack(%lu) [%s size=%lu]\n", i, (unsigned long)n, stateClass(i), (unsigned long)b.size());
+      if (n >= b.size()) m.head = 0; b.removeBack(n); if (n >= m.v.n) m.alias = false; m.v.removeBack(n); removed = true; cnt("op_remove_back"); break; }
+    case K_CLEAR: setctxf("Buffer.clear/%s", stateClass(i)); noteCell("clear", i); hist.addf("b%d.clear() [%s]\n", i, stateClass(i)); m.head = 0; b.clear(); m.v.n = 0; m.alias = false; cnt("op_clear"); break;
+    case K_FREE: setctxf("Buffer.free/%s", stateClass(i)); noteCell("free", i); hist.addf("b%d.free() [%s]\n", i, stateClass(i)); m.head = 0; b.free(); m.v.n = 0; m.own = false; m.detach(); cnt("op_free"); break;
+    case K_SWAP: if (xSwapEmpty && (!strcmp(stateClass(i), "empty-non-owning") || !strcmp(stateClass(j), "empty-non-owning"))) break;   // trigger: swap with a buffer that has no storage
+      { bool se = !strcmp(stateClass(i), "empty-non-owning") || !strcmp(stateClass(j), "empty-non-owning"); setctxf("Buffer.swap/%s", se ? "with-empty-non-owning" : "both-hold-data"); } noteCell("swap", i); noteCell("swap-arg", j); g_target2 = j; hist.addf("b%d.swap(b%d)\n", i, j); b.swap(*B[j]); m.swap(*M[j]); cnt("op_swap"); break;
     case K_ATTACH: {
       int f = -1; for (int t = 0; t < NF; ++t) { int c = (int)((t + r.below(NF)) % NF); bool used = false; for (int q = 0; q < NB; ++q) if (q != i && M[q]->att == c) used = true; if (!used) { f = c; break; } }
       if (f < 0) break;
       size_t len = r.chance(1, 10) ? 0 : (size_t)r.range(1, r.chance(1, 2) ? 64 : WIN); size_t off = (size_t)r.range(0, (long)(WIN - len));
-      setctxf("Buffer.attach/%s", stateClass(b)); noteCell("attach", b); hist.addf("b%d.attach(foreign%d + %lu, %lu) [%s]\n", i, f, (unsigned long)off, (unsigned long)len, stateClass(b));
-      b.attach(F[f].base + GUARD + off, len);
+      setctxf("Buffer.attach/%s", stateClass(i)); noteCell("attach", i); hist.addf("b%d.attach(foreign%d + %lu, %lu) [%s]\n", i, f, (unsigned long)off, (unsigned long)len, stateClass(i));
+      m.head = 0; b.attach(F[f].base + GUARD + off, len);
       m.v.set(F[f].base + GUARD + off, len); m.own = false; m.att = f; m.aoff = off; m.alen = len; m.woff = off; m.alias = len > 0; attached = true; cnt("op_attach"); break; }
     case K_WRITE: {       // write through the mutable view
       if (!b.size()) break; size_t at = (size_t)r.below(b.size()); u8 c = (u8)(1 + r.below(255));
-      if (!b.buffer && m.att < 0) break;   // the harness itself never writes where the model has no attachment on record
-      setctxf("Buffer.operator-byte*/%s", stateClass(b)); hist.addf("((byte*)b%d)[%lu] = 0x%02x\n", i, (unsigned long)at, c);
+      if (!repOf(i).alloc && m.att < 0) break;   // the harness itself never writes where the model has no attachment on record
+      setctxf("Buffer.operator-byte*/%s", stateClass(i)); hist.addf("((byte*)b%d)[%lu] = 0x%02x\n", i, (unsigned long)at, c);
       ((byte*)b)[at] = c; m.v.d[at] = c; m.v.k[at] = 1; cnt("op_write_view"); break; }
     case K_POKE: {        // the owner of the foreign memory changes a byte that an attached buffer exposes
       if (!(m.att >= 0 && m.alias && !m.own && m.v.n)) break; size_t at = (size_t)r.below(m.v.n); u8 c = (u8)(1 + r.below(255));
@@ -302,15 +371,16 @@ static void historyCase(long idx) {
     case K_SELF: {        // the argument is the receiver itself
       int which = (int)r.below(3); Bytes tmp; tmp.setFrom(m.v);
       if (b.size() > 20000) break;
-      if (which == 0) { const char* sc = stateClass(b); const char* ov = !b.buffer ? "no-copy" : b.bufferStart == b.buffer ? "same-place" : (size_t)(b.bufferStart - b.buffer) < b.size() ? "overlapping" : "disjoint";
+      if (which == 0) { const char* sc = stateClass(i); Rep q = repOf(i); const char* ov = !q.alloc ? "no-copy" : q.head == 0 ? "same-place" : q.head < q.size ? "overlapping" : "disjoint";
         if (xSelfAssign) break;
         setctxf("Buffer.operator=/arg=self/%s/%s", sc, ov); { char t[96]; snprintf(t, sizeof t, "arg=self/%s/%s", sc, ov); noteBranch("operator=", t); } hist.addf("b%d = b%d [%s %s size=%lu]\n", i, i, sc, ov, (unsigned long)b.size());
         Buffer& alias = b; b = alias; }
-      else if (which == 1) { const char* br = resizeBranch(b, 2 * b.size());
+      else if (which == 1) { const char* br = resizeBranch(i, 2 * b.size()); estResize(i, 2 * b.size());
         setctxf("Buffer.append(Buffer)/arg=self/%s", br); { char t[96]; snprintf(t, sizeof t, "arg=self/%s", br); noteBranch("append", t); } hist.addf("b%d.append(b%d) [%s size=%lu]\n", i, i, br, (unsigned long)b.size());
         b.append(b); m.v.append(tmp.d, tmp.k, tmp.n); if (m.v.n > 0) m.own = true; }
-      else { const char* br = prependBranch(b, b.size());
+      else { const char* br = prependBranch(i, b.size());
         if (xSelfPrepend || xPrepend) break;
+        estPrepend(i, b.size());
         setctxf("Buffer.prepend(Buffer)/arg=self/%s", br); { char t[96]; snprintf(t, sizeof t, "arg=self/%s", br); noteBranch("prepend", t); } hist.addf("b%d.prepend(b%d) [%s size=%lu]\n", i, i, br, (unsigned long)b.size());
         b.prepend(b); m.v.prepend(tmp.d, tmp.k, tmp.n); m.own = true; }
       cnt("op_self_argument"); break; }
@@ -344,7 +414,7 @@ static void backlogCase(long idx) {
   for (int o = 0; o < rounds && budget > 0; ++o) {
     // write(): the unsent tail of a message is appended
     int lg = (int)r.range(0, maxlog); size_t n = (size_t)1 << lg; n = n / 2 + (size_t)r.below(n / 2 + 1); if (n == 0) n = 1; if ((long)n > budget) n = (size_t)budget; budget -= (long)n;
-    u8* d = genBytes(r, n); const char* br = resizeBranch(b, b.size() + n);
+    u8* d = genBytes(r, n); const char* br = resizeBranch(0, b.size() + n); estResize(0, b.size() + n);
     setctxf("Buffer.append/%s", br); noteBranch("append", br); hist.addf("append(%lu) [%s size=%lu]\n", (unsigned long)n, br, (unsigned long)b.size());
     b.append(d, n); m.v.append(d, 0, n); m.own = true; free(d); cnt("op_append"); cnt("ops");
     if (b.size() > maxsz) maxsz = b.size();
@@ -355,10 +425,10 @@ static void backlogCase(long idx) {
       size_t sent = r.chance(1, 4) ? m.v.n : r.chance(1, 4) ? 1 : 1 + (size_t)r.below(m.v.n);
       const char* cls = sent < m.v.n ? "part" : "all";
       setctxf("Buffer.removeFront/owning/%s", cls); hist.addf("removeFront(%lu) of %lu\n", (unsigned long)sent, (unsigned long)m.v.n);
-      b.removeFront(sent); m.v.removeFront(sent); cnt("op_remove_front"); cnt("ops");
+      estRemoveFront(0, sent); b.removeFront(sent); m.v.removeFront(sent); cnt("op_remove_front"); cnt("ops");
       fp = mix(fp, sent);
       checkAll(0, false);
-      if (b.isEmpty()) { setctx("Buffer.free/owning"); hist.add("free()\n"); b.free(); m.own = false; m.v.n = 0; cnt("op_free"); cnt("ops"); ++drains; checkAll(0, false); }
+      if (b.isEmpty()) { setctx("Buffer.free/owning"); hist.add("free()\n"); m.head = 0; b.free(); m.own = false; m.v.n = 0; cnt("op_free"); cnt("ops"); ++drains; checkAll(0, false); }
     }
     fp = mix(fp, n);
   }
@@ -417,6 +487,8 @@ int main(int argc, char** argv) {
     else harnessBug("unknown mode %s", mode);
   }
   cnt("bytes_compared", g_bytesCompared); cnt("terminator_reads", g_termReads); cnt("guard_bytes_compared", g_guardBytes); cnt("non_owning_structure_checks", g_structChecks);
+  if (g_viewPlaceChecks) cnt("view_placement_checks", g_viewPlaceChecks);
+  if (g_estAgree || g_estDiffer) { cnt("public_picture_agrees_with_private_fields", g_estAgree); cnt("public_picture_differs_from_private_fields", g_estDiffer); }
   leakCheck("Buffer/leak");
   finish();
   return 0;
